@@ -2173,7 +2173,7 @@ class TestZstdCompression:
                 per_turn.append(sum(1 for b in ipc.open_stream(body) if b.num_rows))
                 return result
 
-            client._client.simulate_post = recording  # type: ignore[method-assign]
+            client._client.simulate_post = recording  # type: ignore[method-assign,assignment]
             with http_connect(RpcFixtureService, client=client, compression_level=level) as proxy:
                 batches = list(proxy.generate_multi(count=5000, rows_per_batch=500))
             client.close()
